@@ -1500,11 +1500,13 @@ impl<'a> Gen<'a> {
                     self.actions.push(Action::Window { c: sl, n });
                 }
                 self.exclude.extend(slow.iter().copied());
-                let nmsg = self.r.range(3, 7);
+                // sometimes a long backlog for one receiver (far more messages than any batch size a handler might use)
+                let long = self.r.chance(1, 4);
+                let nmsg = if long { self.r.range(18, 45) } else { self.r.range(3, 7) };
                 for _ in 0..nmsg {
                     let t = talkers[self.r.below(talkers.len())];
                     let me = self.nick_of(t);
-                    let target = match self.r.below(4) {
+                    let target = match if long && self.r.chance(3, 4) { 0 } else { self.r.below(4) } {
                         0 => {
                             let i = self.r.below(slow.len());
                             self.nick_of(slow[i])
